@@ -3,7 +3,7 @@
    (full object tree: class skeleton WITH the stored scalars/vectors, domain, range, is_linear)
    or the error class it raised, and values at some points (out-of-place and in-place). *)
 From Coq Require Import ZArith QArith List Bool.
-From Verif Require Import Base.Num Base.Vec Base.Check C04.Model C04.Cplx.
+From Verif Require Import Base.Num Base.Vec Base.Check C04.Model C04.ModelIP C04.Cplx.
 Import ListNotations.
 
 Section Corr.
@@ -53,7 +53,15 @@ Definition check (k : case) : bool :=
       && forallb (fun p =>
            vcl (p_out p) (eval o (p_x p))
            && vcl (p_out p) (denote s (p_x p))
-           && match p_ip p with Some y => vcl y (eval_ip o (p_x p)) | None => true end)
+           && match p_ip p with
+              | Some y => vcl y (eval_ip o (p_x p))
+                          (* the call into a NaN-filled `out`, on the poisoned-buffer model *)
+                          && match unp (ipp o (pure (p_x p)) (poison (dim r))) with
+                             | Some y' => vcl y y'
+                             | None => false
+                             end
+              | None => true
+              end)
          (c_points k)
   | Err TypeErr, BTypeErr => true
   | Err ZeroDivErr, BZeroDiv => true
